@@ -1,4 +1,5 @@
 import Rip.Model.Capture
+import Rip.Model.TaskLTS
 namespace Rip.Driver.C17
 open Rip.Proto Rip.Capture
 
@@ -39,5 +40,19 @@ def handleT (rest : String) : String :=
   | some (b, m) =>
     let (k, t) := truncateUtf8 b m
     s!"{hexEncode k} {showBool t}"
+
+/-- `c17l <n> label*`: does the lifecycle automaton accept the recorded label sequence? -/
+def handleL (rest : String) : String :=
+  let pLabel : P Rip.TaskLTS.Label := do
+    let t ← tok
+    match t with
+    | "spawned" => pure .spawned | "status:running" => pure .running | "delta" => pure .delta
+    | "cancel_requested" => pure .cancelReq | "cancelled" => pure .cancelled
+    | "status:exited" => pure .stExited | "status:cancelled" => pure .stCancelled
+    | "status:failed" => pure .stFailed
+    | _ => failure
+  match runP (listOf pLabel) rest with
+  | none => "bad-case"
+  | some ls => if Rip.TaskLTS.lifecycleOK ls then "accept" else "reject"
 
 end Rip.Driver.C17
